@@ -1,5 +1,6 @@
 SPECIFICATION Spec
 CONSTANTS
+  Lazies = {FALSE, TRUE}
   NumRuns = 2
   NumGens = 3
   ObserverCancels = TRUE
